@@ -824,3 +824,427 @@ Proof.
     rewrite H in Ew. injection Ew as <-. rewrite all_init_map in Ei. injection Ei as <-. auto.
   - exfalso. rewrite write_all_overflow in Ew; [discriminate | rewrite repeat_length; lia | lia].
 Qed.
+
+(* ==== nth / nth_back / last / count / instruction scripts / StepBy (X21) ============================ *)
+
+(* what `nth k` (back = false) / `nth_back k` (back = true) does to the abstract sequence: D = the k skipped items *)
+Definition nth_spec (back : bool) (k : nat) (s : it) (o : option val) (s' : it) : Prop :=
+  match o with
+  | Some x => exists D, length D = k /\
+                        (if back then elems s = elems s' ++ x :: D else elems s = D ++ x :: elems s')
+  | None => length (elems s) <= k /\ elems s' = []
+  end.
+
+Lemma nthd_sound back b : dir_ok back b -> forall k s o s',
+  wfb b s -> nthd back k s = (o, s') -> nth_spec back k s o s' /\ wfb b s' /\ depth s' = depth s.
+Proof.
+  intros Hdir. induction k as [|k IH]; intros s o s' Hw E; unfold nthd in *; cbn [nth_by] in E.
+  - destruct (nextd_sound back b s o s' Hdir Hw E) as (Hs & Hw' & Hd). split; [|auto].
+    unfold spec in Hs. unfold nth_spec. destruct o as [x|].
+    + exists []. split; [reflexivity|]. destruct back; cbn [app]; exact Hs.
+    + destruct Hs as [-> ->]. cbn. auto.
+  - destruct (nextd back s) as [o1 s1] eqn:E1.
+    destruct (nextd_sound back b s o1 s1 Hdir Hw E1) as (Hs & Hw1 & Hd1). unfold spec in Hs.
+    destruct o1 as [x1|].
+    + destruct (IH s1 o s' Hw1 E) as (Hs2 & Hw2 & Hd2). split; [|split; [assumption|lia]].
+      unfold nth_spec in *. destruct o as [x|].
+      * destruct Hs2 as (D & HD & HE). destruct back.
+        -- exists (D ++ [x1]). split; [rewrite app_length; cbn; lia|]. rewrite Hs, HE, <- app_assoc. reflexivity.
+        -- exists (x1 :: D). split; [cbn; lia|]. rewrite Hs, HE. reflexivity.
+      * destruct Hs2 as [Hl He]. split; [|exact He].
+        destruct back; rewrite Hs; rewrite ?app_length; cbn [length]; lia.
+    + injection E as <- <-. destruct Hs as [Hs1 Hs2]. split; [|auto]. unfold nth_spec. rewrite Hs1. cbn.
+      split; [lia | exact Hs2].
+Qed.
+
+(* k+1 unconditional calls have the same effect on a well-formed state (an exhausted state stays exhausted) *)
+Lemma calls_sound back b : dir_ok back b -> forall k s o s',
+  wfb b s -> calls back k s = (o, s') -> nth_spec back k s o s' /\ wfb b s'.
+Proof.
+  intros Hdir. induction k as [|k IH]; intros s o s' Hw E; cbn [calls] in E.
+  - apply (nthd_sound back b Hdir 0 s o s' Hw) in E. tauto.
+  - destruct (nextd back s) as [o1 s1] eqn:E1. cbn [snd] in E.
+    destruct (nextd_sound back b s o1 s1 Hdir Hw E1) as (Hs & Hw1 & Hd1). unfold spec in Hs.
+    destruct (IH s1 o s' Hw1 E) as (Hs2 & Hw2). split; [|exact Hw2].
+    unfold nth_spec in *. destruct o1 as [x1|].
+    + destruct o as [x|].
+      * destruct Hs2 as (D & HD & HE). destruct back.
+        -- exists (D ++ [x1]). split; [rewrite app_length; cbn; lia|]. rewrite Hs, HE, <- app_assoc. reflexivity.
+        -- exists (x1 :: D). split; [cbn; lia|]. rewrite Hs, HE. reflexivity.
+      * destruct Hs2 as [Hl He]. split; [|exact He].
+        destruct back; rewrite Hs; rewrite ?app_length; cbn [length]; lia.
+    + destruct Hs as [Hn1 Hn2]. destruct o as [x|].
+      * exfalso. destruct Hs2 as (D & _ & HE). rewrite Hn2 in HE.
+        destruct back; [destruct (elems s') | destruct D]; discriminate.
+      * destruct Hs2 as [_ He]. rewrite Hn1. cbn. split; [lia | exact He].
+Qed.
+
+(* the closed form: the k-th item from the front (back), the rest after (before) it *)
+Lemma nth_spec_closed back k s o s' : nth_spec back k s o s' ->
+  o = nth_error (if back then rev (elems s) else elems s) k /\
+  elems s' = (if back then firstn (length (elems s) - S k) (elems s) else skipn (S k) (elems s)).
+Proof.
+  unfold nth_spec. destruct o as [x|].
+  - intros (D & HD & HE). destruct back; rewrite HE; subst k.
+    + split.
+      * rewrite rev_app_distr. cbn [rev]. rewrite <- app_assoc. cbn [app].
+        rewrite nth_error_app2 by (rewrite rev_length; lia). rewrite rev_length, Nat.sub_diag. reflexivity.
+      * rewrite app_length. cbn [length].
+        replace (length (elems s') + S (length D) - S (length D)) with (length (elems s')) by lia.
+        symmetry. apply firstn_len_app.
+    + split.
+      * rewrite nth_error_app2 by lia. rewrite Nat.sub_diag. reflexivity.
+      * symmetry. apply skipn_S_len_app.
+  - intros [Hl He]. rewrite He. destruct back.
+    + split.
+      * symmetry. apply nth_error_None. rewrite rev_length. exact Hl.
+      * replace (length (elems s) - S k) with 0 by lia. reflexivity.
+    + split.
+      * symmetry. apply nth_error_None. exact Hl.
+      * symmetry. apply skipn_all2. lia.
+Qed.
+
+Lemma nthd_closed back b k s : dir_ok back b -> wfb b s ->
+  fst (nthd back k s) = nth_error (if back then rev (elems s) else elems s) k /\
+  elems (snd (nthd back k s)) =
+    (if back then firstn (length (elems s) - S k) (elems s) else skipn (S k) (elems s)) /\
+  wfb b (snd (nthd back k s)).
+Proof.
+  intros Hdir Hw. destruct (nthd back k s) as [o s'] eqn:E. cbn [fst snd].
+  destruct (nthd_sound back b Hdir k s o s' Hw E) as (Hs & Hw' & _).
+  destruct (nth_spec_closed back k s o s' Hs) as [H1 H2]. auto.
+Qed.
+
+(* nth k = k+1 x next, on EVERY state (no well-formedness): literally, with advance_by's early exit ... *)
+Lemma iter_swap {A} (f : A -> A) n x : Nat.iter n f (f x) = f (Nat.iter n f x).
+Proof.
+  induction n as [|n IH]; [reflexivity|].
+  change (f (Nat.iter n f (f x)) = f (f (Nat.iter n f x))). rewrite IH. reflexivity.
+Qed.
+
+Lemma iter_fix {A} (f : A -> A) n x : f x = x -> Nat.iter n f x = x.
+Proof.
+  intros H. induction n as [|n IH]; [reflexivity|].
+  change (f (Nat.iter n f x) = x). rewrite IH. exact H.
+Qed.
+
+Lemma nthd_iter back : forall k s, nthd back k s = Nat.iter k (and_next back) (nextd back s).
+Proof.
+  unfold nthd. induction k as [|k IH]; intros s; [reflexivity|].
+  cbn [nth_by]. destruct (nextd back s) as [o s1] eqn:E1. destruct o as [x|].
+  - rewrite IH. change (Nat.iter (S k) (and_next back) (Some x, s1))
+      with (and_next back (Nat.iter k (and_next back) (Some x, s1))).
+    rewrite <- iter_swap. reflexivity.
+  - symmetry. apply iter_fix. reflexivity.
+Qed.
+
+(* ... and without the early exit whenever an item is returned *)
+Lemma nthd_some_calls back : forall k s x s', nthd back k s = (Some x, s') -> calls back k s = (Some x, s').
+Proof.
+  unfold nthd. induction k as [|k IH]; intros s x s' E; cbn [nth_by calls] in *; [exact E|].
+  destruct (nextd back s) as [o s1]. cbn [snd]. destruct o as [y|]; [apply IH; exact E | discriminate].
+Qed.
+
+(* when nth returns None it stopped at the first None of the k+1 calls *)
+Lemma nthd_none_calls back : forall k s s', nthd back k s = (None, s') ->
+  exists j, j <= k /\ calls back j s = (None, s').
+Proof.
+  unfold nthd. induction k as [|k IH]; intros s s' E; cbn [nth_by] in E.
+  - exists 0. split; [lia | exact E].
+  - destruct (nextd back s) as [o s1] eqn:E1. destruct o as [y|].
+    + destruct (IH s1 s' E) as (j & Hj & Hc). exists (S j). split; [lia|]. cbn [calls]. rewrite E1. exact Hc.
+    + injection E as <-. exists 0. split; [lia | exact E1].
+Qed.
+
+(* on well-formed states the early exit is unobservable *)
+Lemma nthd_calls_wf back b k s : dir_ok back b -> wfb b s ->
+  fst (nthd back k s) = fst (calls back k s) /\
+  elems (snd (nthd back k s)) = elems (snd (calls back k s)) /\
+  size_hint (snd (nthd back k s)) = size_hint (snd (calls back k s)) /\
+  wfb b (snd (calls back k s)).
+Proof.
+  intros Hdir Hw. destruct (nthd back k s) as [o1 s1] eqn:E1. destruct (calls back k s) as [o2 s2] eqn:E2.
+  cbn [fst snd].
+  destruct (nthd_sound back b Hdir k s o1 s1 Hw E1) as (H1 & Hw1 & _).
+  destruct (calls_sound back b Hdir k s o2 s2 Hw E2) as (H2 & Hw2).
+  destruct (nth_spec_closed _ _ _ _ _ H1) as [Ho1 He1]. destruct (nth_spec_closed _ _ _ _ _ H2) as [Ho2 He2].
+  split; [congruence|]. split; [congruence|]. split; [|exact Hw2].
+  rewrite (wfb_exact s1 (wfb_front _ _ Hw1)), (wfb_exact s2 (wfb_front _ _ Hw2)). congruence.
+Qed.
+
+(* advance_by + next is nth (std's definition of the default) *)
+Lemma nthd_advance back : forall k s,
+  nthd back k s = let '(r, s') := advance_by back k s in if r =? 0 then nextd back s' else (None, s').
+Proof.
+  unfold nthd. induction k as [|k IH]; intros s; cbn [nth_by advance_by]; [reflexivity|].
+  destruct (nextd back s) as [o s1]. destruct o as [x|]; [apply IH | reflexivity].
+Qed.
+
+(* ---- instruction scripts ---------------------------------------------------------------------- *)
+Lemma exec_sound b c s : dir_ok (instr_back c) b -> wfb b s -> wfb b (snd (exec c s)).
+Proof.
+  intros Hd Hw. destruct c; cbn [exec instr_back] in *.
+  - destruct (next s) as [o s'] eqn:E. destruct (nextd_sound false b s o s' Hd Hw E) as (_ & H & _). exact H.
+  - destruct (next_back s) as [o s'] eqn:E. destruct (nextd_sound true b s o s' Hd Hw E) as (_ & H & _). exact H.
+  - unfold nth_it. destruct (nthd false k s) as [o s'] eqn:E.
+    destruct (nthd_sound false b Hd k s o s' Hw E) as (_ & H & _). exact H.
+  - unfold nth_back_it. destruct (nthd true k s) as [o s'] eqn:E.
+    destruct (nthd_sound true b Hd k s o s' Hw E) as (_ & H & _). exact H.
+Qed.
+
+Lemma run_script_wf b : forall cs s, (forall c, In c cs -> dir_ok (instr_back c) b) -> wfb b s ->
+  wfb b (run_script cs s).
+Proof.
+  induction cs as [|c cs IH]; intros s Hc Hw; [exact Hw|]. cbn [run_script].
+  apply IH; [intros c' Hin; apply Hc; right; exact Hin|].
+  apply exec_sound; [apply Hc; left; reflexivity | exact Hw].
+Qed.
+
+Lemma hint_exact_script b cs s l :
+  (forall c, In c cs -> dir_ok (instr_back c) b) -> wfb b s -> yields (run_script cs s) l ->
+  size_hint (run_script cs s) = (length l, Some (length l)).
+Proof.
+  intros Hc Hw Hy. pose proof (wfb_front _ _ (run_script_wf b cs s Hc Hw)) as Hw'.
+  rewrite (yields_is_elems _ _ Hw' Hy). apply wfb_exact. exact Hw'.
+Qed.
+
+Lemma hint_exact_script_drain b cs s :
+  (forall c, In c cs -> dir_ok (instr_back c) b) -> wfb b s ->
+  size_hint (run_script cs s) =
+    (length (drain (run_script cs s)), Some (length (drain (run_script cs s)))).
+Proof.
+  intros Hc Hw. pose proof (wfb_front _ _ (run_script_wf b cs s Hc Hw)) as Hw'.
+  rewrite (drain_elems _ Hw'). apply wfb_exact. exact Hw'.
+Qed.
+
+Lemma run_script_of_bools : forall cs s, run_script (map instr_of_bool cs) s = consume cs s.
+Proof.
+  induction cs as [|c cs IH]; intros s; [reflexivity|]. cbn [map run_script consume].
+  rewrite IH. destruct c; reflexivity.
+Qed.
+
+(* the abstract sequence after a script: each instruction cuts the front or the back *)
+Definition cut (c : instr) (l : list val) : list val :=
+  match c with
+  | INext => skipn 1 l
+  | INextBack => firstn (length l - 1) l
+  | INth k => skipn (S k) l
+  | INthBack k => firstn (length l - S k) l
+  end.
+
+Lemma exec_elems b c s : dir_ok (instr_back c) b -> wfb b s -> elems (snd (exec c s)) = cut c (elems s).
+Proof.
+  intros Hd Hw. destruct c; cbn [exec instr_back cut] in *.
+  - exact (proj1 (proj2 (nthd_closed false b 0 s Hd Hw))).
+  - exact (proj1 (proj2 (nthd_closed true b 0 s Hd Hw))).
+  - exact (proj1 (proj2 (nthd_closed false b k s Hd Hw))).
+  - exact (proj1 (proj2 (nthd_closed true b k s Hd Hw))).
+Qed.
+
+Lemma run_script_elems b : forall cs s, (forall c, In c cs -> dir_ok (instr_back c) b) -> wfb b s ->
+  elems (run_script cs s) = fold_left (fun l c => cut c l) cs (elems s).
+Proof.
+  induction cs as [|c cs IH]; intros s Hc Hw; [reflexivity|]. cbn [run_script fold_left].
+  rewrite IH; [| intros c' Hin; apply Hc; right; exact Hin
+               | apply exec_sound; [apply Hc; left; reflexivity | exact Hw]].
+  rewrite (exec_elems b c s (Hc c (or_introl eq_refl)) Hw). reflexivity.
+Qed.
+
+Lemma collect_after_script b cs s :
+  (forall c, In c cs -> dir_ok (instr_back c) b) -> wfb b s ->
+  collect_raw (run_script cs s) = CDone (drain (run_script cs s)).
+Proof.
+  intros Hc Hw. pose proof (wfb_front _ _ (run_script_wf b cs s Hc Hw)) as Hw'.
+  rewrite (drain_elems _ Hw'). apply collect_raw_safe. exact Hw'.
+Qed.
+
+(* ---- fold / last / count ------------------------------------------------------------------------ *)
+Lemma fold_n_sound {A} back b (f : A -> val -> A) : dir_ok back b -> forall fuel s acc,
+  wfb b s -> length (elems s) < fuel ->
+  fst (fold_n fuel back f acc s) = fold_left f (if back then rev (elems s) else elems s) acc /\
+  elems (snd (fold_n fuel back f acc s)) = [] /\ wfb b (snd (fold_n fuel back f acc s)).
+Proof.
+  intros Hdir. induction fuel as [|fuel IH]; intros s acc Hw Hl; [lia|].
+  cbn [fold_n]. destruct (nextd back s) as [o s1] eqn:E1.
+  destruct (nextd_sound back b s o s1 Hdir Hw E1) as (Hs & Hw1 & _). unfold spec in Hs.
+  destruct o as [x|].
+  - assert (Hl1 : length (elems s1) < fuel).
+    { destruct back; rewrite Hs in Hl; rewrite ?app_length in Hl; cbn [length] in Hl; lia. }
+    destruct (IH s1 (f acc x) Hw1 Hl1) as (H1 & H2 & H3). split; [|auto]. rewrite H1.
+    destruct back; rewrite Hs; [rewrite rev_app_distr|]; reflexivity.
+  - destruct Hs as [Hs1 Hs2]. cbn [fst snd]. rewrite Hs1. destruct back; cbn; auto.
+Qed.
+
+Lemma fold_left_last (l : list val) : forall a,
+  fold_left (fun (_ : option val) x => Some x) l a = match rev l with [] => a | x :: _ => Some x end.
+Proof.
+  induction l as [|y l IH] using rev_ind; intros a; [reflexivity|].
+  rewrite fold_left_app, rev_app_distr. reflexivity.
+Qed.
+
+Lemma fold_left_count (l : list val) : forall a, fold_left (fun n (_ : val) => S n) l a = a + length l.
+Proof. induction l as [|y l IH]; intros a; cbn [fold_left length]; [lia|]. rewrite IH. lia. Qed.
+
+Lemma last_it_sound s : wfb false s ->
+  fst (last_it s) = nth_error (rev (elems s)) 0 /\ elems (snd (last_it s)) = [] /\
+  size_hint (snd (last_it s)) = (0, Some 0).
+Proof.
+  intros Hw. unfold last_it, fold_it.
+  destruct (fold_n_sound false false (fun (_ : option val) x => Some x) (dir_front false)
+              (S (length (elems s))) s None Hw ltac:(lia)) as (H1 & H2 & H3).
+  rewrite H1, fold_left_last. split; [destruct (rev (elems s)); reflexivity|]. split; [exact H2|].
+  rewrite (wfb_exact _ H3), H2. reflexivity.
+Qed.
+
+(* on a double-ended state, last() is what next_back() would have returned *)
+Lemma last_is_next_back s : wfb true s -> fst (last_it s) = fst (next_back s).
+Proof.
+  intros Hw. rewrite (proj1 (last_it_sound s (wfb_weaken _ Hw))).
+  symmetry. exact (proj1 (nthd_closed true true 0 s (fun _ => eq_refl) Hw)).
+Qed.
+
+Lemma count_it_sound s : wfb false s ->
+  fst (count_it s) = length (elems s) /\ size_hint s = (fst (count_it s), Some (fst (count_it s))) /\
+  size_hint (snd (count_it s)) = (0, Some 0).
+Proof.
+  intros Hw. unfold count_it, fold_it.
+  destruct (fold_n_sound false false (fun n (_ : val) => S n) (dir_front false)
+              (S (length (elems s))) s 0 Hw ltac:(lia)) as (H1 & H2 & H3).
+  rewrite H1, fold_left_count. cbn [Nat.add]. split; [reflexivity|]. split; [apply wfb_exact; exact Hw|].
+  rewrite (wfb_exact _ H3), H2. reflexivity.
+Qed.
+
+(* fold visits exactly the items plain iteration yields, in order (rfold: in reverse order) *)
+Lemma fold_it_sound {A} back b (f : A -> val -> A) acc s : dir_ok back b -> wfb b s ->
+  fst (fold_it back f acc s) = fold_left f (if back then rev (elems s) else elems s) acc /\
+  elems (snd (fold_it back f acc s)) = [].
+Proof.
+  intros Hdir Hw. unfold fold_it.
+  destruct (fold_n_sound back b f Hdir (S (length (elems s))) s acc Hw ltac:(lia)) as (H1 & H2 & _). auto.
+Qed.
+
+(* ---- Skip::next is nth on the inner iterator ------------------------------------------------------ *)
+Lemma nth_by_fuel b : forall k s, wfb b s ->
+  nth_by (step (depth s) false) k s = nth_by (nextd false) k s.
+Proof.
+  induction k as [|k IH]; intros s Hw; cbn [nth_by]; [reflexivity|].
+  change (step (depth s) false s) with (nextd false s).
+  destruct (nextd false s) as [o s1] eqn:E1.
+  destruct (nextd_sound false b s o s1 (dir_front b) Hw E1) as (_ & Hw1 & Hd1).
+  destruct o as [x|]; [|reflexivity]. rewrite <- Hd1. apply IH. exact Hw1.
+Qed.
+
+Lemma skip_next_is_nth b s n : wfb b s ->
+  next (ISkip s n) = let '(o, s') := nth_it n s in (o, ISkip s' 0).
+Proof.
+  intros Hw. unfold next. cbn [depth step]. rewrite (nth_by_fuel b n s Hw). reflexivity.
+Qed.
+
+(* ---- StepBy over a well-formed state --------------------------------------------------------------- *)
+Definition sb_wf (t : stepby) : Prop := wfb false (sb_iter t).
+
+Lemma sb_next_sound t : sb_wf t ->
+  fst (sb_next t) = nth_error (elems (sb_iter t)) (if sb_first t then 0 else sb_step1 t) /\
+  elems (sb_iter (snd (sb_next t))) = skipn (S (if sb_first t then 0 else sb_step1 t)) (elems (sb_iter t)) /\
+  sb_wf (snd (sb_next t)) /\ sb_first (snd (sb_next t)) = false /\ sb_step1 (snd (sb_next t)) = sb_step1 t.
+Proof.
+  intros Hw. unfold sb_next, nth_it.
+  destruct (nthd_closed false false (if sb_first t then 0 else sb_step1 t) (sb_iter t) (dir_front false) Hw)
+    as (H1 & H2 & H3).
+  destruct (nthd false (if sb_first t then 0 else sb_step1 t) (sb_iter t)) as [o i'].
+  cbn [fst snd sb_iter sb_first sb_step1] in *. unfold sb_wf. cbn [sb_iter]. auto.
+Qed.
+
+Lemma sb_consume_wf : forall k t, sb_wf t -> sb_wf (sb_consume k t).
+Proof.
+  induction k as [|k IH]; intros t Hw; [exact Hw|]. cbn [sb_consume]. apply IH.
+  exact (proj1 (proj2 (proj2 (sb_next_sound t Hw)))).
+Qed.
+
+Lemma sb_drain_n_length : forall fuel t, sb_wf t -> length (elems (sb_iter t)) < fuel ->
+  length (sb_drain_n fuel t) = sb_size (sb_first t) (sb_step1 t) (length (elems (sb_iter t))).
+Proof.
+  induction fuel as [|fuel IH]; intros t Hw Hl; [lia|].
+  cbn [sb_drain_n]. destruct (sb_next_sound t Hw) as (H1 & H2 & H3 & H4 & H5).
+  destruct (sb_next t) as [o t']. cbn [fst snd] in *.
+  set (n := length (elems (sb_iter t))) in *. set (k := if sb_first t then 0 else sb_step1 t) in *.
+  destruct o as [x|].
+  - assert (Hk : k < n) by (apply nth_error_Some; rewrite <- H1; discriminate).
+    cbn [length]. rewrite IH; [| exact H3 | rewrite H2, skipn_length; fold n; lia].
+    rewrite H4, H5, H2, skipn_length. fold n. unfold sb_size. subst k. destruct (sb_first t).
+    + destruct (Nat.eqb_spec n 0) as [Hz|Hz]; [lia|]. replace (n - 1) with (n - 1) by lia. reflexivity.
+    + set (c := sb_step1 t + 1) in *.
+      replace n with ((n - S (sb_step1 t)) + 1 * c) at 2 by (unfold c; lia).
+      rewrite Nat.div_add by (unfold c; lia). lia.
+  - symmetry in H1. apply nth_error_None in H1. fold n in H1. cbn [length]. unfold sb_size. subst k.
+    destruct (sb_first t).
+    + replace n with 0 by lia. reflexivity.
+    + symmetry. apply Nat.div_small. lia.
+Qed.
+
+Lemma sb_hint_exact t : sb_wf t ->
+  sb_size_hint t = (length (sb_drain t), Some (length (sb_drain t))).
+Proof.
+  intros Hw. unfold sb_size_hint, sb_drain. rewrite (wfb_exact _ Hw). cbn [fst snd option_map].
+  rewrite sb_drain_n_length by (auto; lia). reflexivity.
+Qed.
+
+Lemma step_by_wf n s t : wfb false s -> step_by n s = Ok t -> sb_wf t.
+Proof.
+  unfold step_by. intros Hw. destruct (n =? 0); [discriminate|]. intros E. injection E as <-. exact Hw.
+Qed.
+
+Lemma sb_hint_exact_consume n s t k : wfb false s -> step_by n s = Ok t ->
+  sb_size_hint (sb_consume k t) =
+    (length (sb_drain (sb_consume k t)), Some (length (sb_drain (sb_consume k t)))).
+Proof. intros Hw E. apply sb_hint_exact. apply sb_consume_wf. exact (step_by_wf n s t Hw E). Qed.
+
+(* what a StepBy yields: every (step)-th element of what its source yields *)
+Lemma every_nth_fuel st : forall f1 f2 l, length l <= f1 -> length l <= f2 ->
+  every_nth f1 st l = every_nth f2 st l.
+Proof.
+  induction f1 as [|f1 IH]; intros f2 l H1 H2.
+  - destruct l; [|cbn in H1; lia]. destruct f2; reflexivity.
+  - destruct l as [|x r]; [destruct f2; reflexivity|]. destruct f2 as [|f2]; [cbn in H2; lia|].
+    cbn [every_nth]. f_equal. cbn [length] in *. apply IH; rewrite skipn_length; lia.
+Qed.
+
+Lemma skipn_nth_error {A} : forall k (l : list A) x, nth_error l k = Some x -> skipn k l = x :: skipn (S k) l.
+Proof.
+  induction k as [|k IH]; intros [|y l] x H; try discriminate.
+  - injection H as <-. reflexivity.
+  - cbn [nth_error] in H. rewrite skipn_cons. rewrite (IH l x H). reflexivity.
+Qed.
+
+Lemma sb_drain_n_elems : forall fuel t, sb_wf t -> length (elems (sb_iter t)) < fuel ->
+  sb_drain_n fuel t = sb_elems t.
+Proof.
+  induction fuel as [|fuel IH]; intros t Hw Hl; [lia|].
+  cbn [sb_drain_n]. destruct (sb_next_sound t Hw) as (H1 & H2 & H3 & H4 & H5).
+  destruct (sb_next t) as [o t']. cbn [fst snd] in *. unfold sb_elems. cbv zeta.
+  set (l := elems (sb_iter t)) in *.
+  destruct o as [x|].
+  - assert (Hk : (if sb_first t then 0 else sb_step1 t) < length l)
+      by (apply nth_error_Some; rewrite <- H1; discriminate).
+    rewrite IH; [| exact H3 | rewrite H2, skipn_length; lia].
+    unfold sb_elems. cbv zeta. rewrite H4, H5, H2. symmetry in H1.
+    destruct (sb_first t).
+    + destruct l as [|y r]; [discriminate|]. cbn [nth_error] in H1. injection H1 as ->.
+      cbn [length every_nth skipn]. f_equal.
+    + rewrite (skipn_nth_error _ _ _ H1).
+      destruct (length l) as [|n'] eqn:En; [lia|]. cbn [every_nth]. f_equal.
+      apply every_nth_fuel; rewrite !skipn_length; lia.
+  - symmetry in H1. apply nth_error_None in H1. destruct (sb_first t).
+    + destruct l; [reflexivity | cbn in H1; lia].
+    + rewrite skipn_all2 by exact H1. destruct (length l); reflexivity.
+Qed.
+
+Lemma sb_drain_elems t : sb_wf t -> sb_drain t = sb_elems t.
+Proof. intros Hw. unfold sb_drain. apply sb_drain_n_elems; [exact Hw | lia]. Qed.
+
+(* step_by 1 is the identity on the yielded sequence *)
+Lemma every_nth_0 : forall f l, length l <= f -> every_nth f 0 l = l.
+Proof.
+  induction f as [|f IH]; intros [|x r] H; try reflexivity; [cbn in H; lia|].
+  cbn [every_nth skipn]. f_equal. apply IH. cbn in H. lia.
+Qed.
